@@ -108,7 +108,7 @@ def normalise_obligations(tier: str, replay_fn, monotone_1ulp_replay_fn):
         Smt("smt_normalise_range", lambda: build_normalise("range"), timeout=T, solvers=solvers, decode=dec, replay_fn=replay_fn),
         Smt("smt_normalise_zero_iff_zero", lambda: build_normalise("zero"), timeout=T, solvers=solvers, decode=dec, replay_fn=replay_fn),
         Smt("smt_normalise_paths_cover", lambda: build_normalise("cover"), timeout=T, solvers=solvers),
-        Smt("smt_normalise_monotone", build_normalise_monotone, timeout=T if q else 1800, solvers=solvers,
+        Smt("smt_normalise_monotone", build_normalise_monotone, timeout=T, solvers=solvers,
             decode=lambda m: {"a": int(m.get("a", 0)), "b": int(m.get("b", 0))}, replay_fn=monotone_1ulp_replay_fn),
     ]
 
